@@ -137,9 +137,9 @@ template <typename T> static void op_fill(const Case& c, Outcome& o) {
 }
 // legacy model of the recorded rotate defect: the bodies of Left and Right are exchanged, evaluated with C++ integer promotion
 template <typename T> static uint64_t legacy_rot(uint64_t xp, int s, bool right_named) {
-  const int w = sizeof(T) * 8;
-  if (w >= 32) { typedef T TT; TT x = val<TT>(xp); if (s == 0) return xp; TT r = right_named ? (TT)((x << (TT)s) | (x >> (TT)(w - s))) : (TT)((x >> (TT)s) | (x << (TT)(w - s))); return pat(r); }
-  int x = (int)val<T>(xp); int r = right_named ? ((x << s) | (x >> (w - s))) : ((x >> s) | (x << (w - s))); return pat((T)r);
+  const int w = sizeof(T) * 8; const int cs = (w - s) & (w - 1);     // complementary count, reduced modulo the width
+  if (w >= 32) { typedef T TT; TT x = val<TT>(xp); TT r = right_named ? (TT)((x << (TT)s) | (x >> (TT)cs)) : (TT)((x >> (TT)s) | (x << (TT)cs)); return pat(r); }
+  int x = (int)val<T>(xp); int r = right_named ? ((x << s) | (x >> cs)) : ((x >> s) | (x << cs)); return pat((T)r);
 }
 template <typename T> static void op_rotate(const Case& c, Outcome& o) {
   const int w = sizeof(T) * 8; uint64_t xp = c.w[0] & wmask(w); int s = (int)c.w[1];
